@@ -6,8 +6,9 @@ K (auto pk, unique harness tag) with subclass K2, T (explicit pk).  Every class 
 and every SQL statement actually executed (sqlite3.Connection/Cursor subclasses passed through db.bind(factory=...))
 go to ONE ordered log together with begin/end markers of the program's operations.  Hook bodies are data
 (per class x hook: nothing / read scalars / read collections / modify self.h / modify another live object /
-create a P, K, K2 or T).  Histories are 1..3 db_sessions of creates, updates (several per object, same-value,
-obj.set), to-one and to-many and many-to-many changes, deletes (incl. unflushed creates, update-then-delete, cascade),
+create a P, K, K2 or T / edit the Json dict m or the int array arr of self or of another object IN PLACE through the
+tracked value Pony returns -- m['n'] = v, m['trail'].append(v), arr.append(v) -- or re-assign m).  Histories are 1..3 db_sessions of creates, updates (several per object, same-value,
+obj.set, in-place edits and re-assignments of the Json / array values, also next to ordinary updates of the same object), to-one and to-many and many-to-many changes, deletes (incl. unflushed creates, update-then-delete, cascade),
 flush(), obj.flush(), queries (auto-flush), commit(), rollback(), exit by commit or by exception.
 
 Oracle (from the log and plain sqlite3 reads only) -- see vlib/c33_harness.judge:
@@ -36,11 +37,11 @@ from vlib import c33_harness as H
 
 ID = 'C33'
 LEVEL = 'exploration'
-RULE = ('One case = hook table (4 classes x 6 hooks -> body in {nothing, read, readcoll, mod_self, mod_other, create} + argument), '
+RULE = ('One case = hook table (4 classes x 6 hooks -> body in {nothing, read, readcoll, mod_self, mod_other, create, mod_json} + argument; mod_json = IN-PLACE edit of a tracked Json dict / nested list / int array of self or another object, or its re-assignment), '
         'a per-operation budget of hook side effects (0..8) and 1..3 db_sessions of operations (new_p/new_t/new_k/set/same/setkw/'
-        'move/alt/up/alts_add/alts_remove/link/unlink/del/flush/oflush/query/commit/rollback; session exit commit or exception) '
+        'move/alt/up/alts_add/alts_remove/link/unlink/jedit/jassign/del/flush/oflush/query/commit/rollback; session exit commit or exception) '
         'on the P/K/K2/T model (P.up is a self-reference, kept acyclic). Part 1 (grid, complete): every single (class, hook, body, argument) assignment [thorough: also '
-        'every before-body x after-body pair per class] and 24 same-body-on-every-class tables x 13 fixed scenario histories (6 of them obj.flush() on chains / a diamond / a tree of unsaved principals K -> P -> P -> P). Part 2 (hypothesis): random hook tables and '
+        'every before-body x after-body pair per class] and 28 same-body-on-every-class tables x 14 fixed scenario histories (the 6 chain scenarios are skipped for T-only tables in the quick tier and in the pair grid; 1 of program-made in-place Json/array edits next to ordinary updates, 6 of them obj.flush() on chains / a diamond / a tree of unsaved principals K -> P -> P -> P). Part 2 (hypothesis): random hook tables and '
         'histories. Part 3 (hypothesis): histories built around obj.flush() of the newest object of a chain / tree / diamond of 2..5 '
         'new P and 0..2 new K, same bodies on every level or random per level. Non-trivial = at least one hook call performed a side effect (attribute write / object creation), or one '
         'object got two or more statements within one session, or a flush ran inside an after-hook; distinct by the sha1 of the '
@@ -126,6 +127,9 @@ def tracked_value_scenarios():
     ]
 
 
+CHAIN_NAMES = ('chain3_created_kid', 'chain2_parents_only', 'chain3_modified_kid', 'diamond', 'tree', 'chain_partly_saved')
+
+
 def chain_scenarios():
     """obj.flush() on objects whose not yet inserted principals form chains (K -> P -> P -> P through K.parent / P.up),
     a diamond and a tree; selector -1 is the newest object of the class; oflush attr 'c' = a K, 'b' = a P"""
@@ -161,9 +165,10 @@ def empty_hooks():
 def _arg_values(body, tier):
     # create: arg % 3 chooses T / K / P, (arg // 3) % 2 chooses T with an owner link / subclass K2; mod_other: index of the target
     # mod_json: arg % 4 = m['n']=v / m['trail'] append / arr.append / m re-assigned; (arg // 4) % 2 = on self / on another object
-    if body == 'mod_json': return (0, 1, 2, 3, 5) if tier == 'quick' else (0, 1, 2, 3, 4, 5, 6, 14)
+    if body == 'mod_json': return (0, 1, 2, 5) if tier == 'quick' else (0, 1, 2, 3, 4, 5, 6, 14)
     if body not in ('mod_other', 'create'): return (0,)
-    return (0, 1, 2, 3) if tier == 'quick' else (0, 1, 2, 3, 4, 7)
+    if tier == 'quick': return (0, 1, 2, 3) if body == 'create' else (0, 1, 2)
+    return (0, 1, 2, 3, 4, 7)
 
 
 def level_tables():
@@ -199,7 +204,7 @@ def grid_hook_tables(tier):
                 for bb in H.BODIES[1:]:
                     for ha in H.HOOKS[3:]:
                         for ba in H.BODIES[1:]:
-                            for arg in (1, 5):
+                            for arg in ((1, 5) if set((bb, ba)) & set(('mod_other', 'create', 'mod_json')) else (1,)):
                                 t = empty_hooks()
                                 t[c][hb] = [bb, arg]
                                 t[c][ha] = [ba, arg + 1]
@@ -215,6 +220,8 @@ def grid_cases(tier):
     for tname, table in grid_hook_tables(tier):
         pair = ',' in tname
         for sname, sessions in scenarios():
+            if (tier == 'quick' or pair) and tname.startswith('T.') and sname in CHAIN_NAMES:
+                continue        # no T object takes part in the reference-chain scenarios
             for budget in ((6,) if tname.startswith('levels:') else (2,) if tier == 'quick' or pair else (1, 3)):
                 yield k, {'hooks': table, 'budget': budget, 'sessions': sessions, 'origin': 'grid:%s:%s' % (tname, sname)}
                 k += 1
@@ -332,13 +339,13 @@ def run(ctx):
 
     def t(case):
         evaluate(ctx, case, 'random')
-    ctx.run_test(t, {'case': case_strategy(ctx.tier)}, max_examples=ctx.scale(350, 1500), name='random_histories')
+    ctx.run_test(t, {'case': case_strategy(ctx.tier)}, max_examples=ctx.scale(300, 1500), name='random_histories')
     if ctx.violation is not None:
         return
 
     def tc(case):
         evaluate(ctx, case, 'chains')
-    ctx.run_test(tc, {'case': chain_case_strategy(ctx.tier)}, max_examples=ctx.scale(200, 900), name='chain_histories')
+    ctx.run_test(tc, {'case': chain_case_strategy(ctx.tier)}, max_examples=ctx.scale(150, 900), name='chain_histories')
 
 
 def replay(case):
@@ -371,9 +378,9 @@ EXCLUSIONS = {'obj_flush_principal_no_before_insert': _is_obj_flush_principal}
 MANIFEST = {
     'text': 'Entities P/K(+subclass K2)/T with all six hooks log every hook call into the same ordered log as every SQL statement '
             '(sqlite3 Connection/Cursor subclasses via bind(factory=)). Hook bodies (nothing, read, read collections, modify self, '
-            'modify another object, create an object) and multi-session histories (creates, repeated/same-value updates, '
+            'modify another object, create an object, edit a tracked Json/array value in place) and multi-session histories (creates, repeated/same-value updates, '
             'relationship and m2m changes, deletes incl. unflushed and cascade, flush(), obj.flush(), auto-flush queries, commit, '
-            'rollback) are data. A complete grid of single hook assignments (thorough: before x after pairs) and same-body-on-every-level tables over 13 fixed '
+            'rollback) are data. A complete grid of single hook assignments (thorough: before x after pairs) and same-body-on-every-level tables over 14 fixed '
             'histories is enumerated, then hypothesis samples random hook tables and histories. Oracle from the log only: every '
             'entity-table statement has exactly one matching before-hook since the object\'s previous statement and one matching '
             'after-hook before the operation returns, no hook without a statement, and the tables (plain sqlite3) equal a '
